@@ -13,7 +13,7 @@ META = {
              'kind, sorted (dtype+order, layout, cast), window?, outcome); non-trivial when a buffer is a view, '
              'read-only, big-endian, cast, or the write failed'),
     'required_obs': {'quick': ['digest-compared', 'src-inline', 'src-dict', 'src-struct', 'src-hdf5', 'big-endian',
-                               'cast', 'view', 'readonly', 'failed-write', 'h5-open-audited', 'readonly-differential', 'native-zero-copy', 'dict-plus-inline', 'hc-write-ok', 'cast-of-out-of-range-values', 'special-values-in-index', 'syscall-source-open-seen']},
+                               'cast', 'view', 'readonly', 'failed-write', 'h5-open-audited', 'readonly-differential', 'native-zero-copy', 'dict-plus-inline', 'hc-write-ok', 'cast-of-out-of-range-values', 'special-values-in-index', 'syscall-source-open-seen', 'permuted-dataset-names']},
     'technique': ('runtime monitoring: digests of every caller-owned buffer / data object / HDF5 file before and after each write, '
                   'read-only vs. writable differential, recording wrapper on h5py.File, and strace of a child process '
                   '(the HDF5 source is only opened O_RDONLY and never written at the level of the operating system)'),
@@ -35,6 +35,10 @@ def cases(tier, seed):
     # (h5py opens the file from C; no Python-level hook sees that)
     for k in range(6 if tier == 'quick' else 100):
         yield {'stratum': 'syscall-trace', 'index': k, 'kind': 'syscalls'}
+    # a structured array whose fields are exactly the frame's channels, some channels taking ANOTHER field of the same dtype
+    # (dataset_name): columns that have to be re-arranged are re-arranged in a copy
+    for k in range(40 if tier == 'quick' else 800):
+        yield {'stratum': 'permuted-dataset-names', 'index': k, 'kind': 'permuted-names'}
     # INDEXED frames whose index channel holds special values (both zeros with the minimum / maximum at zero, NaN, infinities,
     # repeated values): what the library works out about the index (bounds, spacing, direction) it works out on a copy
     for k in range(80 if tier == 'quick' else 1500):
@@ -111,6 +115,25 @@ def run_case(case):
             sp['write']['perm_seed'] = None
             sp['write']['hc'] = True
             bump('written-in-hc-mode')
+    elif case['kind'] == 'permuted-names':
+        N = r.choice([3, 5, 8, 40])
+        nch = r.choice([2, 3, 4])
+        dt = gen.dtstr(r.choice(['float64', 'float32', 'int32', 'uint16']), '=')
+        shape = (N,) if r.random() < 0.6 else (N, r.choice([2, 3]))
+        sp = gen.base_spec(r.choice([256, 8192]))
+        sp['ops'].append(gen.origin_op())
+        names = [f'CH{j}' for j in range(nch)]
+        perm = names[:]
+        while perm == names:
+            r.shuffle(perm)
+        for j, nm in enumerate(names):
+            sp['ops'].append(gen.channel_op(nm, dt, shape, fill={'kind': 'pos', 'tag': 10 + names.index(perm[j])}, dataset_name=perm[j]))
+        sp['ops'].append(gen.frame_op('F', list(range(1, nch + 1))))
+        sp['write'] = {'source': r.choice(['struct', 'struct', 'dict', 'hdf5']), 'output_chunk_size': 2 ** 16, 'perm_seed': None, 'extra': 0,
+                       'input_chunk_size': r.choice(gen.chunk_choices(N)), 'sort_fields': True}
+        if N > 2 and r.random() < 0.5:
+            sp['write'].update({'from_idx': r.choice([0, 1]), 'to_idx': r.choice([None, N - 1])})
+        bump('permuted-dataset-names')
     elif case['kind'] == 'index-special':
         N = r.choice([2, 3, 5, 8, 17])
         form = r.choice(['negated-depths', 'negated-depths', 'zeros-mixed', 'zero-first', 'zero-last', 'nan-inside', 'inf-ends', 'constant'])
